@@ -9,7 +9,7 @@ regenerated `Gen.Script`.
 
 `Dev.pinned` is the tree as first pinned. It violated the property in three operator-level ways and one
 script-level way (C12-uncomparable-panic, repaired by 0a3fd2c; C12-neq-float, repaired by 21415f8;
-C12-int-via-float64 and C12-bare-path (its Filter() half), still known); for each the full-strength
+C12-int-via-float64, repaired by 24fcf54; C12-bare-path, repaired by fe63c88 and 6b93c2a); for each the full-strength
 statement is kept as a `def …_full : Prop`, refuted by a concrete witness ("before <commit>" where the
 defect is repaired), and proved in `_partial` form outside a named predicate. Statements with a `Dev`
 hypothesis (`d.uncmp = false` …) are about the code with the corresponding fix applied; section 11 states
@@ -265,7 +265,7 @@ def num_matrix_full : Prop :=
   ∀ (rx : RxEngine) (o : Op), isCmp o = true → ∀ (l r : Val) (x y : Flt), Spec.num? l = some x → Spec.num? r = some y →
     evalOp Dev.pinned rx o l r = .ok (.bool (cmpNum o x y))
 
-/-- `9007199254740993 == 9007199254740992.0` is true in the pinned code (and still: `num_matrix_current_full_false`) -/
+/-- `9007199254740993 == 9007199254740992.0` is true in the pinned code (until 24fcf54: `num_matrix_before_24fcf54_false`) -/
 theorem num_matrix_full_false : ¬ num_matrix_full := by
   intro h
   have := h rx0 .eq rfl (.int 9007199254740993) (.flt (.fin 9007199254740992 0)) _ _ rfl rfl
@@ -525,7 +525,16 @@ theorem filter_spec (rx : RxEngine) (t : Tm) (hwf : t.wf = true) (h : isPath t =
 
 example : isPath (.app2 .eq (.path ⟨false, []⟩) (.const (.int 1))) = false := rfl
 
-/-! ## 11. The code as it is now (`Dev.current`: after 0a3fd2c, 21415f8, fe63c88, cd355fe, 6b93c2a) -/
+/-! ## 11. The code as it is now (`Dev.current`: after 0a3fd2c, 21415f8, fe63c88, cd355fe, 6b93c2a,
+24fcf54 — no deviation left) -/
+
+/-- the regenerated source compares an int64 with a float64 through `cmpIntFloat` at all twelve sites of
+the six comparison clauses and nowhere through `float64(…)` (before 24fcf54: 0 and 2 per clause) -/
+theorem int_float_exact_ok : Gen.Script.hasCmpIntFloat = true ∧
+    Gen.Script.cmpSites = [("eq", 2, 0), ("neq", 2, 0), ("lt", 2, 0), ("gt", 2, 0), ("lte", 2, 0), ("gte", 2, 0)] := by
+  decide
+
+theorem current_eq_fixed : Dev.current = Dev.fixed := rfl
 
 /-- evaluation of any non-empty program on any element never faults -/
 theorem total_current (rx : RxEngine) (prog : List Item) (hne : prog ≠ []) (elem root : Val) :
@@ -537,85 +546,76 @@ theorem eq_neq_complement_current (rx : RxEngine) (l r : Val) :
     ∃ b, evalOp Dev.current rx .eq l r = .ok (.bool b) ∧ evalOp Dev.current rx .neq l r = .ok (.bool (!b)) :=
   eq_neq_complement Dev.current rfl rfl rx l r
 
-/-- every operator application outside the int-via-float64 class computes the specified value -/
-theorem evalOp_current (rx : RxEngine) (o : Op) (l r : Val) (h : bigMixed o l r = false) :
+/-- EVERY operator application — all 23 operators, all operand kinds on both sides — computes the
+specified value -/
+theorem evalOp_current (rx : RxEngine) (o : Op) (l r : Val) :
     evalOp Dev.current rx o l r = .ok (Spec.evalOp rx o l r) :=
-  evalOp_eq_spec_of Dev.current rx o l r (fun hu => by cases hu) (fun hq => by cases hq) (fun _ => h)
+  evalOp_fixed_eq_spec rx o l r
 
-def num_matrix_current_full : Prop :=
+/-- all 6 × 4 numeric cells compare exact values, without exception -/
+theorem num_matrix_current (rx : RxEngine) (o : Op) (ho : isCmp o = true)
+    (l r : Val) (x y : Flt) (hl : Spec.num? l = some x) (hr : Spec.num? r = some y) :
+    evalOp Dev.current rx o l r = .ok (.bool (cmpNum o x y)) :=
+  num_matrix Dev.current rfl rfl rx o ho l r x y hl hr
+
+/-- the former witness: `9007199254740993 == 9007199254740992.0` is now false, `>` true -/
+example : evalOp Dev.current rx0 .eq (.int 9007199254740993) (.flt (.fin 9007199254740992 0)) = .ok (.bool false) ∧
+    evalOp Dev.current rx0 .gt (.int 9007199254740993) (.flt (.fin 9007199254740992 0)) = .ok (.bool true) := ⟨rfl, rfl⟩
+
+def num_matrix_before_24fcf54 : Prop :=
   ∀ (rx : RxEngine) (o : Op), isCmp o = true → ∀ (l r : Val) (x y : Flt), Spec.num? l = some x → Spec.num? r = some y →
-    evalOp Dev.current rx o l r = .ok (.bool (cmpNum o x y))
+    evalOp Dev.before24fcf54 rx o l r = .ok (.bool (cmpNum o x y))
 
-/-- still: `9007199254740993 == 9007199254740992.0` is true -/
-theorem num_matrix_current_full_false : ¬ num_matrix_current_full := by
+/-- before 24fcf54: `9007199254740993 == 9007199254740992.0` was true -/
+theorem num_matrix_before_24fcf54_false : ¬ num_matrix_before_24fcf54 := by
   intro h
   have := h rx0 .eq rfl (.int 9007199254740993) (.flt (.fin 9007199254740992 0)) _ _ rfl rfl
-  have e : evalOp Dev.current rx0 .eq (.int 9007199254740993) (.flt (.fin 9007199254740992 0)) = .ok (.bool true) := rfl
+  have e : evalOp Dev.before24fcf54 rx0 .eq (.int 9007199254740993) (.flt (.fin 9007199254740992 0)) = .ok (.bool true) := rfl
   rw [e] at this
   have c : cmpNum .eq (.fin 9007199254740993 0) (.fin 9007199254740992 0) = false := by decide +kernel
   rw [c] at this
   cases this
 
-/-- all 6 × 4 numeric cells (now including `float != float`) compare exact values unless an int of
-magnitude ≥ 2^53 meets a float -/
-theorem num_matrix_current (rx : RxEngine) (o : Op) (ho : isCmp o = true)
-    (l r : Val) (x y : Flt) (hl : Spec.num? l = some x) (hr : Spec.num? r = some y) (h : bigMixed o l r = false) :
-    evalOp Dev.current rx o l r = .ok (.bool (cmpNum o x y)) := by
-  rw [evalOp_current rx o l r h]
-  cases o <;> simp [isCmp] at ho <;>
-    simp [Spec.evalOp, Spec.eqv, Spec.ltv, Spec.lev, hl, hr, cmpNum]
+/-- Script.Match (every Script() route) gives the specified verdict on EVERY well-formed script, every
+element and root -/
+theorem script_spec_current (rx : RxEngine) (t : Tm) (hwf : t.wf = true) (elem root : Val) :
+    matchElem Dev.current rx (compile true t) elem root = .ok (Spec.matches rx t elem root) :=
+  script_spec rx t hwf elem root
 
-example : bigMixed .neq (.flt (.fin 3 (-1))) (.flt (.fin 5 (-1))) = false := by decide +kernel
-
-def script_spec_current_full : Prop :=
+def script_spec_before_24fcf54 : Prop :=
   ∀ (rx : RxEngine) (t : Tm), t.wf = true → ∀ elem root,
-    matchElem Dev.current rx (compile true t) elem root = .ok (Spec.matches rx t elem root)
+    matchElem Dev.before24fcf54 rx (compile true t) elem root = .ok (Spec.matches rx t elem root)
 
-/-- still: the script `9007199254740993 == 9007199254740992.0` matches -/
-theorem script_spec_current_full_false : ¬ script_spec_current_full := by
+/-- before 24fcf54: the script `9007199254740993 == 9007199254740992.0` matched -/
+theorem script_spec_before_24fcf54_false : ¬ script_spec_before_24fcf54 := by
   intro h
   have := h rx0 (.app2 .eq (.const (.int 9007199254740993)) (.const (.flt (.fin 9007199254740992 0)))) rfl .null .null
-  have e : matchElem Dev.current rx0 (compile true (.app2 .eq (.const (.int 9007199254740993)) (.const (.flt (.fin 9007199254740992 0))))) .null .null
+  have e : matchElem Dev.before24fcf54 rx0 (compile true (.app2 .eq (.const (.int 9007199254740993)) (.const (.flt (.fin 9007199254740992 0))))) .null .null
       = .ok true := rfl
   have s : Spec.matches rx0 (.app2 .eq (.const (.int 9007199254740993)) (.const (.flt (.fin 9007199254740992 0)))) .null .null = false := by
     decide +kernel
   rw [e, s] at this
   cases this
 
-/-- Script.Match (every Script() route) gives the specified verdict on every well-formed script none of
-whose comparisons — for any choice of the multi-valued operands — puts an int of magnitude ≥ 2^53 next to
-a float -/
-theorem script_spec_current (rx : RxEngine) (t : Tm) (hwf : t.wf = true) (elem root : Val)
-    (hclean : ∀ c ∈ Spec.choices elem root (Spec.normalise t), Clean Dev.current rx c = true) :
-    matchElem Dev.current rx (compile true t) elem root = .ok (Spec.matches rx t elem root) := by
-  rw [compile_true, matchElem_general _ _ _ _ _ (flatten_not_bare _ (isPath_normalise t)),
-    matchElem_flatten_clean Dev.current rx _ (wf_normalise t hwf) elem root hclean]
-  rfl
-
-/-- a non-trivial instance that the pinned code got wrong: `@.f != 2.5 && @.m[*] == @.m[*]` on
-`{"f": 1.5, "m": [[], 1]}` (containers paired under `==`, a float on the left of `!=`) -/
-example : ∀ c ∈ Spec.choices (.obj [([102], .flt (.fin 3 (-1))), ([109], .arr [.arr [], .int 1])]) .null
-    (Spec.normalise (.app2 .and (.app2 .neq (.path ⟨false, [.child [102]]⟩) (.const (.flt (.fin 5 (-1)))))
-      (.app2 .eq (.path ⟨false, [.child [109], .wild]⟩) (.path ⟨false, [.child [109], .wild]⟩)))),
-    Clean Dev.current rx0 c = true := by decide +kernel
-
-/-- the filter route (`Equation.Filter()` inside `Expr.Get`/`First`), same hypothesis, now for EVERY
-well-formed script: a bare path is the specified existence test too (`bare_path_spec`, 6b93c2a) -/
+/-- the filter route (`Equation.Filter()` inside `Expr.Get`/`First`) gives the specified verdict on EVERY
+well-formed script; the only hypothesis concerns a bare path: the data it selects must not hold the
+`jp.Nothing` marker itself (`bare_path_spec`) -/
 theorem filter_spec_current (rx : RxEngine) (t : Tm) (hwf : t.wf = true) (elem root : Val)
-    (hdata : ∀ p, t = .path p → NoNothing (Spec.sel p elem root))
-    (hclean : ∀ c ∈ Spec.choices elem root (Spec.normalise t), Clean Dev.current rx c = true) :
+    (hdata : ∀ p, t = .path p → NoNothing (Spec.sel p elem root)) :
     matchElem Dev.current rx (compile false t) elem root = .ok (Spec.matches rx t elem root) := by
   cases hb : isPath t
   · rw [match_filter t hb]
-    exact script_spec_current rx t hwf elem root hclean
+    exact script_spec_current rx t hwf elem root
   · cases t with
     | path p => exact bare_path_spec Dev.current rx p elem root (hdata p rfl)
     | const v => simp [isPath] at hb
     | app1 o a => simp [isPath] at hb
     | app2 o a b => simp [isPath] at hb
 
-/-- the hypotheses of `script_spec_current` hold of every bare path: an `exists` application is in no
-deviation class -/
+example : ∀ p, (Tm.app2 .eq (.path ⟨false, []⟩) (.const (.int 1))) = .path p → NoNothing (Spec.sel p .null .null) := by
+  intro p h; cases h
+
+/-- an `exists` application is in no deviation class (used for the code before 24fcf54) -/
 theorem clean_bare (d : Dev) (rx : RxEngine) (p : Path) (elem root : Val) :
     ∀ c ∈ Spec.choices elem root (Spec.normalise (.path p)), Clean d rx c = true := by
   intro c hc
@@ -624,13 +624,11 @@ theorem clean_bare (d : Dev) (rx : RxEngine) (p : Path) (elem root : Val) :
   obtain ⟨v, _, rfl⟩ := hc
   simp [Clean, Op.cnt, devHit, uncomparablePair, neqFloatCase, bigMixed, isCmp]
 
-/-- Script.Match(v) ⇔ v is selected by the corresponding filter, for every well-formed script: both routes
-give the same verdict on every element (same hypotheses; none of them concerns a bare path beyond
-`NoNothing`) -/
+/-- Script.Match(v) ⇔ v is selected by the corresponding filter: the two routes give the same verdict on
+every element, for EVERY well-formed script (same single hypothesis about a bare path) -/
 theorem match_filter_current (rx : RxEngine) (t : Tm) (hwf : t.wf = true) (elem : Val)
-    (hdata : ∀ p, t = .path p → NoNothing (Spec.sel p elem elem))
-    (hclean : ∀ c ∈ Spec.choices elem elem (Spec.normalise t), Clean Dev.current rx c = true) :
+    (hdata : ∀ p, t = .path p → NoNothing (Spec.sel p elem elem)) :
     matchElem Dev.current rx (compile true t) elem elem = matchElem Dev.current rx (compile false t) elem elem := by
-  rw [script_spec_current rx t hwf elem elem hclean, filter_spec_current rx t hwf elem elem hdata hclean]
+  rw [script_spec_current rx t hwf elem elem, filter_spec_current rx t hwf elem elem hdata]
 
 end OjgVerif.C12
